@@ -1,6 +1,7 @@
 import KojenVerif.Lemmas.EngineUserPass
 import KojenVerif.Lemmas.EngineFor
 import KojenVerif.Lemmas.EngineLoadWF
+import KojenVerif.Lemmas.EngineSpecLink
 import KojenVerif.Props.C16
 /-
   C17 — template engine: user tags, IF/ELSEIF/ELSE (and FOR) follow their documented rules.
@@ -200,6 +201,21 @@ theorem C17_generate (env : Env) (ht : EnvTotal env) (m : Spec.Model) (chain fnD
       some (files.map (fun f => (fileName fnDict f.name, Spec.renderFile (fileOut m userTags (loaded chain f))))) :=
   generate_files env ht m chain fnDict userTags isStr files h
 
+/-- **The front half of the generator computes the reference expansion.** Inside `GenOK` and the link grammar
+    (no user tag named like a loop tag, no FIRST / LAST tag with an inline default inside a loop, nothing for
+    the reference's blank-line filter to drop - all decidable), what `Engine.generate` hands to the preservation
+    pass for each template file is `Spec.expandFile` of that file: the specification the rules of C16 and C17
+    are stated on, and the one the check compares with the real generator on every input. -/
+theorem C17_generate_is_spec (env : Env) (ht : EnvTotal env) (m : Spec.Model) (chain fnDict userTags : List (Str × Str))
+    (isStr : Str → Bool) (files : List TFile) (h : GenOK m chain userTags files) (hc : ChainOK chain)
+    (hu : UtFree userTags) (hl : ∀ f ∈ files, LinkFileOK m chain f.items) :
+    ∃ out : TFile → List Line,
+      generate env { dict := toPat chain, fnDict := fnDict, sm := toSm m, userTags := userTags, userTagIsStr := isStr }
+        (files.map (fun f => (f.name, Spec.renderFile f.items))) =
+        some (files.map (fun f => (fileName fnDict f.name, out f))) ∧
+      ∀ fd, ∀ f ∈ files, Spec.expandFile (toPat chain) m fd userTags f.items = some (out f) :=
+  generate_is_expandFile env ht m chain fnDict userTags isStr files h hc hu hl
+
 /-! non-vacuity: a block with an assigned ELSEIF, an unassigned IF, defaults and verbatim tags -/
 section Example
 def exDict : List (Str × Str) := [(T "B", T "7"), (T "V", [])]
@@ -251,6 +267,9 @@ example : generate C16.exEnv { dict := toPat exChain, fnDict := fnDictOf (T "Doo
               T "    next = Run;\n", T "  \n", T "  done\n", T "    /* nothing to do */\n", T "  \n", T "  done\n",
               T " on Off in idle\n", T "    /* nothing to do */\n", T "    next = Run;\n", T "  \n", T "  done\n", T "state Run\n"]) ] := by
   decide
+set_option maxRecDepth 1000000 in
+example : ChainOK exChain ∧ UtFree exUser ∧ ∀ f ∈ [exFileA, exFileB], LinkFileOK C16.exModel exChain f.items :=
+  ⟨⟨by decide, by decide⟩, by decide, by decide⟩
 end Example
 
 end KojenVerif.C17
